@@ -1744,9 +1744,9 @@ namespace igris
             m_size = n;
         }
 
-        void erase(iterator newend)
+        iterator erase(iterator pos)
         {
-            m_size = newend - m_data;
+            return erase(pos, pos + 1);
         }
 
         iterator erase(iterator first, iterator last)
